@@ -235,6 +235,8 @@ class PseudoOperand(Operand):
     def resolve_symbols(self, symbol_table):
         if self.instruction.mnemonic in ["FCB", "FDB", "RMB"]:
             self.value = self.value.resolve(symbol_table)
+        if self.instruction.mnemonic == "ORG" and (self.value.is_symbol() or self.value.is_expression()):
+            self.value = self.value.resolve(symbol_table)
         return self
 
     def translate_data(self, width):
@@ -269,6 +271,8 @@ class PseudoOperand(Operand):
             )
 
         if self.instruction.mnemonic == "ORG":
+            if not (self.value.is_none() or (self.value.is_numeric() and not self.value.is_negative())):
+                raise OperandTypeError("[{}] is not an address to originate at".format(self.operand_string))
             return CodePackage(address=self.value)
 
         if self.instruction.mnemonic == "FCC":
